@@ -163,6 +163,12 @@ def snapshot_run(run, rng, seed, flavour, conc, fail, quick, big=False):
             def norm(v):
                 return (sorted(v.chunks), sorted((f['path'], f['digest'], tuple(sorted((c['counter'], tuple(c['range'])) for c in f['chunks']))) for f in v.data['files']))
             same = norm(o.value) == norm(ref.value)
+            if same:
+                # ... and the sequential meaning itself: what was recorded restores (unperturbed, one loader) to the source tree
+                tgt = d / 'back'
+                tgt.mkdir()
+                back = w.command('a', lambda r: r.restore(path=tgt), concurrent=1)
+                same = bool(back.ok) and check_restored(tgt, files, d)
         evs = events_for_trace(ctl, 'snapshot')
         evs.append({'a': 'end', 'ok': ok, 'fault': fail is not None, 'same': bool(same), 'free': free if not hung else -1, 'hung': bool(hung),
                     'etype': o.etype if o else 'hung'})
@@ -347,6 +353,9 @@ def main(run):
     for i in range(4 if quick else 40):
         conc = [1, 2][i % 2]
         traces.append(snapshot_run(run, rng, run.seed * 1000 + 800 + i, 'plain' if i % 4 < 2 else 'async', conc, 2 + rng.randrange(0, 3 * conc), quick, big=True))
+    # ... and without a failure: the producer is blocked on the full queue in the middle of a file while chunks of that file complete
+    for i in range(3 if quick else 30):
+        traces.append(snapshot_run(run, rng, run.seed * 1000 + 900 + i, 'plain' if i % 2 else 'async', [1, 2, 3][i % 3], None, quick, big=True))
 
     def on_reject(t, idx, clause):
         e = t['events'][idx - 1]
